@@ -11,5 +11,21 @@ CONSTANTS
   RMaxReload = 1
   RMaxUse = 1
   RealMtls = {}
+  RotConn = 0
+  RotReload = 0
+  RotRotate = 0
+  RotUse = 0
+  RRotConn = 0
+  RRotReload = 0
+  RRotRotate = 0
+  RRotUse = 0
+  CliConn = 0
+  CliRotate = 0
+  FConn = 2
+  FReload = 1
+  FBotch = 1
+  FUse = 1
+  FailMtls = {}
+  Extra = {}
 INVARIANTS TypeOK Undisturbed Fresh Authenticated ConfigKept
 CHECK_DEADLOCK FALSE
